@@ -82,10 +82,11 @@ CHECKS = {
         text="Lean theorems about the TLS decision logic for every clear-side and TLS-side server script and either handshake outcome: "
              "required_no_clear_leak (only EHLO/STARTTLS/QUIT ever in clear), wrapper_nothing_in_clear, required_fail_closed, "
              "failed_handshake_no_session, caps_from_tls_only (the TLS session starts from an empty read buffer: no STARTTLS response "
-             "injection), opportunistic_iff_offered, none_never_upgrades, switch_table. The handshake itself (certificate / host-name "
+             "injection), opportunistic_iff_offered, none_never_upgrades, switch_table, trust_anchors (which certificates a configured connector accepts: added "
+             "roots, CertificateStore::None / Default, a platform store, the two danger switches). The handshake itself (certificate / host-name "
              "verification by native-tls/OpenSSL) is an input: partial. Correspondence: the real SmtpTransport and tokio "
              "AsyncSmtpTransport against a scripted peer that switches to TLS with fixture certificates (trusted/right name, wrong name, "
-             "self-signed, expired) over the full grid of modes x switches x server kinds; clear and in-TLS octets recorded separately; "
+             "self-signed, expired; a second CA acting as the platform store) over the full grid of modes x switches x server kinds; clear and in-TLS octets recorded separately; "
              "the real handshake outcome compared with the expected table.",
         design_ref="DESIGN.md 5 C06",
         note="Trusted: Lean kernel; axioms propext/Quot.sound/Classical.choice; native-tls/OpenSSL handshake and X.509 verification (input of the "
@@ -97,8 +98,8 @@ CHECKS = {
              "waits on at most two reads, then fails and the connection is shut), sync_send_bounded (<= 2T with the sync client's socket "
              "timeouts), waiting_read_is_error, broken_not_parked, tokio_unbounded_witness (the tokio client has no read deadline: known "
              "finding). Partial: real time is the kernel's and tokio's. Correspondence: SmtpTransport and tokio AsyncSmtpTransport with "
-             "timeout T against a multi-connection scripted peer that goes silent at every dialogue position (incl. mid-line and on the "
-             "NOOP probe of a pooled connection); results, transcripts of every connection, elapsed time and is_timeout() are checked; "
+             "timeout T against a multi-connection scripted peer that goes silent at every dialogue position (incl. mid-line, on the "
+             "NOOP probe of a pooled connection, in a blocked write of a 16 MiB message, and in the TCP connect itself); results, transcripts of every connection, elapsed time and is_timeout() are checked; "
              "the following send must succeed on a fresh connection.",
         design_ref="DESIGN.md 5 C20",
         note="Trusted: Lean kernel; axioms propext/Quot.sound/Classical.choice; socket timeouts and timers (A7, measured with a generous bound); model + "
@@ -120,14 +121,15 @@ CHECKS = {
         category="proof",
         text="Lean theorems: crlf_no_bare_lf, crlf_idempotent, auto_range, sevenbit_ok and sevenbit_requested_ok (when 7bit is chosen or "
              "accepted the output is ASCII without NUL, CR/LF only as CRLF, lines within 998), roundtrip_identity, roundtrip_base64 (a "
-             "reader ignoring line breaks recovers the octets: proved through a base64 inverse and chunking lemmas), refusal_matrix. The "
-             "quoted-printable round trip and line rules are not proved yet (full statements recorded in Props/C10.lean); for them the tie "
-             "is the correspondence check: an RFC 2045 decoder written independently is applied to every real encoder output. "
+             "reader ignoring line breaks recovers the octets: proved through a base64 inverse and chunking lemmas), "
+             "roundtrip_quoted_printable (an RFC 2045 6.7 reader gives back every content: proved through an item-level semantics of the "
+             "encoder's line buffer, soft breaks and trailing-blank rule), refusal_matrix. The line rules of the quoted-printable output "
+             "(at most 76 characters, no bare trailing blank) are not proved; encodedOk is applied to every real encoder output. "
              "Correspondence: exhaustive strings over a 9-symbol alphabet x String/Vec<u8> x 6 requested encodings, line lengths around "
              "76 and 998, escape ratios around 1/3, sizes to 64 KiB / 1 MiB, through Body and SinglePart.",
         design_ref="DESIGN.md 5 C10",
         note="Trusted: Lean kernel; axioms propext/Quot.sound/Classical.choice; Spec/BodyDec.lean as the reading of RFC 2045 6.7/6.8; model + harness. "
-             "Not yet proved: qp_roundtrip / qp_lines (checked by the decoder on real outputs only).",
+             "Not yet proved: qp_lines (checked on real outputs only).",
         technique="Lean 4 proof (invariants over the chooser / CRLF conversion / base64 chunking) + exhaustive/sampled correspondence with independent decoders"),
     "C02": dict(
         category="proof",
@@ -158,17 +160,19 @@ CHECKS = {
         technique="Lean 4 proof (encoded-word validity, base64 inverse) + correspondence with an independent RFC 2047 reader on real output"),
     "C17": dict(
         category="proof",
-        text="Lean theorems on the header map (get_after_set under any letter case, one_entry_per_name, name_case_insensitive) and "
-             "date_time_of_day. The mailbox round trip (display, then the chumsky grammar transcribed as a PEG, then Address::new) and the "
-             "civil-date round trip are stated in Props/C17.lean and not proved: partial. They are tied by the correspondence check: the "
+        text="Lean theorems on the header map (get_after_set under any letter case, one_entry_per_name, name_case_insensitive) and on the Date "
+             "arithmetic: date_roundtrip (toSecs (civil t) = t for every instant, no upper bound: 400-year cycle argument over a model that "
+             "transcribes httpdate's two conversions), date_injective, date_fields_in_range (month, day of month, weekday), date_time_of_day. "
+             "The mailbox round trip (display, then the chumsky grammar transcribed as a PEG, then Address::new) is stated in Props/C17.lean "
+             "and not proved: partial. It is tied by the correspondence check: the "
              "Display model, the PEG model (grammar observed through a hook, on valid and malformed texts), the date model (first and last "
              "second of every month 1970..9999; every day in thorough) each agree with the code, and the property itself (display -> parse, "
-             "serde, Headers set -> get, the display name and RFC 2231 file name decoded from the wire form by independent readers) is "
+             "serde, Headers set -> get and remove, the display name and RFC 2231 file name decoded from the wire form by independent readers) is "
              "evaluated on every generated value.",
         design_ref="DESIGN.md 5 C17",
         note="Trusted: Lean kernel; axioms propext/Quot.sound/Classical.choice; Spec/StructuredDec.lean; the mime crate (A4); model + harness. Three "
              "defects fixed in /repo (CR/LF/NUL names, quoted local parts, address literals).",
-        technique="Lean 4 proof (header map) + model-vs-code correspondence of display, PEG grammar and date arithmetic with property oracles"),
+        technique="Lean 4 proof (header map; date arithmetic round trip for all instants) + model-vs-code correspondence of display, PEG grammar and date arithmetic with property oracles"),
     "C01": dict(
         category="proof",
         text="Lean theorems stating the decision logic of the typed store outright: spec_errors_exact, spec_envelope_exact (To, Cc, Bcc in "
@@ -182,11 +186,14 @@ CHECKS = {
         technique="Lean 4 proof of the specification's decision logic + model-and-spec-vs-code correspondence on random builder programs"),
     "C11": dict(
         category="proof",
-        text="Lean theorems on the formatting model: child_verbatim_in_parent (a part's octets are the same alone and inside a parent), "
-             "closing_delimiter and empty_multipart (the closing delimiter uses exactly the boundary, also for an empty multipart), "
-             "delimiter_before_each_part, single_part_layout, message_layout. The full statement parse_format (an RFC 2046 reader recovers "
-             "the tree under the BoundaryFree hypothesis) is recorded in Props/C11.lean and not proved yet; the reader of "
-             "Spec/MimeParse.lean is applied to the real octets of every generated message and compared with the tree asked for (nesting, "
+        text="Lean theorems on the formatting model: parse_format / parse_format_multipart / parse_message (the RFC 2046 reader of "
+             "Spec/MimeParse.lean applied to the octets of any well-formed tree gives back the tree - nesting, part order, each entity's "
+             "fields, each leaf's content - for any depth, fan-out and sizes; well-formed = header fields as C02 proves them, Content-Type "
+             "announcing the boundary, boundary without CR and not ending in white space, no line of a part reading as a delimiter of its "
+             "parent), checked_tree_reads_back (the boolean check wfB of those hypotheses is sound; the driver evaluates it on the real header "
+             "blocks and boundaries of every generated tree and reports the count as ok_notes.wf), child_verbatim_in_parent, "
+             "closing_delimiter, empty_multipart, delimiter_before_each_part, single_part_layout, message_layout. The same reader is "
+             "applied to the real octets of every generated message and compared with the tree asked for (nesting, "
              "order, content types, kinds, leaf contents decoded per their Content-Transfer-Encoding). Correspondence: random trees to "
              "depth 4 / fan-out 5, all five kinds, empty multiparts, custom boundaries, leaves with `--` lines; formatted twice, cloned, "
              "alone and as a message body.",
@@ -194,15 +201,17 @@ CHECKS = {
         note="Trusted: Lean kernel; axioms propext/Quot.sound/Classical.choice; Spec/MimeParse.lean as the reading of RFC 2046 5.1; the generated "
              "boundary not occurring in content is probabilistic (checked per case); model + harness. Known finding: a top-level single "
              "part has an extra CRLF for a MIME reader.",
-        technique="Lean 4 proof (structural facts of the formatter) + correspondence with an independent RFC 2046 reader on real output"),
+        technique="Lean 4 proof (reader o formatter = identity on well-formed trees, by induction on depth) + correspondence with the same RFC 2046 reader on real output"),
     "C13": dict(
         category="proof",
         text="Lean theorems, crypto primitives abstract: body_hash_input_agrees (for every message and both canonicalizations the octets hashed "
              "for bh= are the RFC 6376 canonical form of the emitted body: empty, blank-only, trailing blank lines / white space, no final "
              "CRLF), body_transport_invariant (the CRLF supplied by SMTP DATA framing does not change it), sign_keeps_body_and_part_headers, "
-             "sign_adds_one_field, h_lists_signed_fields, body_alteration_changes_input. The header half (header_input_agrees, relaxed "
-             "canonicalization invariant under re-folding of the signature field, covered-field selection = RFC 5.4.2 bottom-up selection) is "
-             "stated in Props/C13.lean and not proved: it is decided per case by the RFC 6376 reader of Spec/DkimVerifier.lean applied to the "
+             "sign_adds_one_field, h_lists_signed_fields, body_alteration_changes_input, relaxed_header_canon_agrees (the relaxed header kernel is "
+             "RFC 6376 3.4.2 on every well-formed field), relaxed_value_fold_invariant (re-folding a value does not change it), "
+             "signed_fields_input_agrees (the fields covered and their order are RFC 5.4.2's bottom-up selection for the h= list). The "
+             "DKIM-Signature field's own contribution to the header hash, and the simple header canonicalization, are not proved (the "
+             "latter is false of the code: known finding): they are decided per case by the RFC 6376 reader of Spec/DkimVerifier.lean applied to the "
              "real emitted octets (and to the octets after DATA framing), whose two hash inputs must equal the signer's, observed through a "
              "hook and tied to the emitted bh= / b= with sha2 / rsa / ed25519-dalek verification primitives; removal of the signature field "
              "must give back the unsigned message; three alterations of protected octets per case must change a hash input. Correspondence: "
@@ -212,30 +221,30 @@ CHECKS = {
              "(compared with sha2 per case); the crypto primitives of sha2 / rsa / ed25519-dalek and collision resistance (A6); model + harness. "
              "Known finding: header canonicalization simple (the default) does not verify because the signature field is re-folded after hashing "
              "(pinned by the repository's test_signature_rsa_simple). Four DKIM defects were repaired in /repo (see known_findings.json).",
-        technique="Lean 4 proof (body canonicalization agreement for all bodies; structure of signing) + correspondence with an independent RFC 6376 reader on real signed output"),
+        technique="Lean 4 proof (body and relaxed-header canonicalization agreement for all inputs; covered-field selection; structure of signing) + correspondence with an independent RFC 6376 reader on real signed output"),
     "C07": dict(
         category="proof",
         text="Lean theorems on the pool transition system (Model/PoolLts.lean: sync and tokio pools over their critical sections, any number of "
              "senders, any peer behaviour, any order of events): commits_equal_successes (for every schedule the messages committed at the "
              "peer are as many as the sends that reported success), transaction_commits_iff_ok, ids_valid (no transition invents or loses a "
-             "connection). Partial: the exclusivity invariant (a connection is parked, or in use by one thread, never both) is stated in "
-             "Props/C07.lean and not proved; it is checked on every forced schedule by replaying the order the real pool actually took "
+             "connection), one_place_at_a_time (exclusivity: a connection is parked, or checked out by exactly one sender, or closed - never "
+             "two of these - in every reachable state). The tie to the code is the replay of every forced schedule: replaying the order the real pool actually took "
              "through the model (every step must be enabled, results / per-connection peer histories / idle count must be predicted) and by "
              "the peer-side oracle: transactions whole, one sender's identity from MAIL to the committed content, each successful send "
              "committed exactly once, failed sends never. Real runtime interleavings finer than one critical section are not enumerated.",
         design_ref="DESIGN.md 5 C07",
-        note="Trusted: Lean kernel; axioms propext/Quot.sound/Classical.choice; atomicity of one model transition (lock + the lock-free work that follows, which touches only connections the thread owns — proved only as id validity, exclusivity is checked per replayed schedule); the schedule controller and the verif-hooks scheduling points; the loopback peer's log; model + harness. Runtime behaviour the model cannot exhibit: data races inside a connection object, executor starvation.",
+        note="Trusted: Lean kernel; axioms propext/Quot.sound/Classical.choice; atomicity of one model transition (lock + the lock-free work that follows, which touches only connections the thread owns — exclusivity is proved for the model and checked per replayed schedule for the code); the schedule controller and the verif-hooks scheduling points; the loopback peer's log; model + harness. Runtime behaviour the model cannot exhibit: data races inside a connection object, executor starvation.",
         technique="Lean 4 proof (invariants of the pool transition system for all event sequences) + refinement check: forced schedules on the real pools replayed through the model"),
     "C08": dict(
         category="proof",
         text="Lean theorems on Model/PoolLts.lean for every schedule and peer behaviour: idle_within_max (the idle set never exceeds max_size, "
              "maintenance worker included), dead_connection_not_reused (a popped connection whose peer is gone is closed, nothing is sent on "
              "it, the sender retries), live_connection_probed_first (NOOP before the transaction on a reused connection), "
-             "failed_connection_closed. Idle-timeout expiry and the top-up to min_idle are in the model and tied to the code by runs with "
-             "wall-clock waits (no theorem about elapsed time). Correspondence: histories with peer drops and refused recipients at any "
+             "failed_probe_closes (a probe answered with an error or too late closes the connection), failed_connection_closed. Idle-timeout expiry and the top-up to min_idle are in the model and tied to the code by runs with "
+             "wall-clock waits (no theorem about elapsed time). Correspondence: histories with peer drops, permanently / temporarily refused recipients, 421 or late answers to the probe at any "
              "send, all 16 (min_idle, max_size) pairs, maintenance passes anywhere, sync and tokio.",
         design_ref="DESIGN.md 5 C08",
-        note="Trusted: Lean kernel; axioms propext/Quot.sound/Classical.choice; atomicity of one model transition (lock + the lock-free work that follows, which touches only connections the thread owns — proved only as id validity, exclusivity is checked per replayed schedule); the schedule controller and the verif-hooks scheduling points; the loopback peer's log; model + harness. One defect repaired in /repo: the maintenance pass parked connections beyond max_size.",
+        note="Trusted: Lean kernel; axioms propext/Quot.sound/Classical.choice; atomicity of one model transition (lock + the lock-free work that follows, which touches only connections the thread owns — exclusivity is proved for the model and checked per replayed schedule for the code); the schedule controller and the verif-hooks scheduling points; the loopback peer's log; model + harness. One defect repaired in /repo: the maintenance pass parked connections beyond max_size.",
         technique="Lean 4 proof (bound and health invariants of the pool transition system) + refinement check on forced schedules with peer faults and idle-timeout waits"),
     "C09": dict(
         category="proof",
@@ -245,9 +254,11 @@ CHECKS = {
              "shutdown returns promptly, and that after the last handle is dropped the worker thread has exited and every socket is closed, "
              "are runtime facts checked on every forced schedule (schedule runs to completion, thread census via /proc, socket census at the "
              "peer), not theorems. Correspondence: one or two shutdown calls at every position of every order of the critical sections of "
-             "1..2 senders x 1..2 sends, pools with 0..3 parked connections, maintenance passes, peer faults; sync and tokio.",
+             "1..2 senders x 1..2 sends, pools with 0..3 parked connections, maintenance passes, peer faults; the peer's log read at the instant "
+             "shutdown returns with 0..3 idle connections (tokio on a current-thread runtime); a second shutdown and a send while a "
+             "connection is being closed towards a peer that answers QUIT 2 s late; sync and tokio.",
         design_ref="DESIGN.md 5 C09",
-        note="Trusted: Lean kernel; axioms propext/Quot.sound/Classical.choice; atomicity of one model transition (lock + the lock-free work that follows, which touches only connections the thread owns — proved only as id validity, exclusivity is checked per replayed schedule); the schedule controller and the verif-hooks scheduling points; the loopback peer's log; model + harness. ",
+        note="Trusted: Lean kernel; axioms propext/Quot.sound/Classical.choice; atomicity of one model transition (lock + the lock-free work that follows, which touches only connections the thread owns — exclusivity is proved for the model and checked per replayed schedule for the code); the schedule controller and the verif-hooks scheduling points; the loopback peer's log; model + harness. ",
         technique="Lean 4 proof (shutdown invariants of the pool transition system) + refinement check: shutdown forced at every position of the schedules of the real pools"),
     "C19": dict(
         category="model+correspondence",
